@@ -32,11 +32,13 @@ for p in props:
         c = PROPS[pid]
         partial = c.get("partial", "")
         text = c.get("level_text") or (
-            "Theorems in coq/%s (closed under the global context, stdlib only) about a hand-written Gallina model of the code, proved for all inputs; the model is tied to /repo on every run by the constants translator and by a differential correspondence (%s)."
-            % (", ".join(c.get("coq_targets", [])).replace(".vo", ".v"), c.get("correspondence", "")[:400]))
+            "Theorems in coq/%s (closed under the global context, stdlib only) about a hand-written Gallina model of the code, proved for all inputs; the model is tied to /repo on every run by translators (constants and tables; the node-cache hash; %s) and by a differential correspondence (%s)."
+            % (", ".join(c.get("coq_targets", [])).replace(".vo", ".v"),
+               ("leaf functions of src/bytes.rs, src/raw/node.rs, src/raw/mod.rs, src/raw/crc32.rs regenerated as Gallina and proved equal to the model for all inputs in coq/SrcFunTie.v" if "SrcFunTie.vo" in c.get("coq_targets", []) else "no translated leaf function belongs to this property"),
+               c.get("correspondence", "")[:400]))
         if partial:
             text += " PARTIAL: " + partial
-        note = c.get("level_note") or ("Trusted: Coq kernel (incl. vm_compute); the hand-written model (checked against the code by sampling, not proved); extraction (ExtrOcamlBasic only) and OCaml driver; Rust harness. Modelled, not verified: %s. Assumptions: %s"
+        note = c.get("level_note") or ("Trusted: Coq kernel (incl. vm_compute); the hand-written model (checked against the code by sampling; proved equal to the translated source only for the leaf functions of coq/SrcFunTie.v); the translators tools/srcparams.py, tools/rusthash.py, tools/rustfun*.py; extraction (ExtrOcamlBasic only) and OCaml driver; Rust harness. Modelled, not verified: %s. Assumptions: %s"
                                        % ("; ".join(c.get("modelled", [])) or "-", "; ".join(c.get("assumptions", [])) or "-"))
         m["checks"].append({
             "property_id": pid,
